@@ -241,6 +241,13 @@ def _check_day(out, dt, ymd, dt2str, y, m, d):
         s_us = '%sT%s.%06d' % (s_iso, hms, U)
         s_sp = '%s %s.%06d' % (s_iso, hms, U)
         same('iso T seconds', 'dt(%r)' % s_sec, tsec, dt, s_sec)
+        # a fraction written with fewer than six digits is a decimal fraction of a second ('.5' = 500000 microseconds)
+        for nd in (1, 3, 5):
+            frac = ('%06d' % U)[:nd]
+            t_frac = DATETIME(y, m, d, H, M, S, int(frac.ljust(6, '0')))
+            s_fr = '%sT%s.%s' % (s_iso, hms, frac)
+            same('iso T %d-digit fraction' % nd, 'dt(%r)' % s_fr, t_frac, dt, s_fr)
+            same('us:iso T %d-digit fraction' % nd, "dt(%r, dialect='us')" % s_fr, t_frac, dt, s_fr, dialect='us')
         same('iso T microseconds', 'dt(%r)' % s_us, t, dt, s_us)
         same('iso space microseconds', 'dt(%r)' % s_sp, t, dt, s_sp)
         same('us:iso T microseconds', "dt(%r, dialect='us')" % s_us, t, dt, s_us, dialect='us')
